@@ -15,6 +15,12 @@ open Dalek.FieldFacts (d sqrtM1)
 /-- absolute value: the non-negative one of `x`, `-x` (`CT_ABS` of RFC 9496) -/
 noncomputable def fpAbs (x : Fp) : Fp := if fpIsNeg x then -x else x
 
+/-- the non-positive one of `x`, `-x` -/
+noncomputable def fpNegAbs (x : Fp) : Fp := if fpIsNeg x then x else -x
+
+theorem fpNegAbs_eq (x : Fp) : fpNegAbs x = -fpAbs x := by
+  unfold fpNegAbs fpAbs; split <;> simp
+
 /-! ## `decompress::step_2` -/
 
 /-- `v = a d u1² − u2²` (`a = −1`) -/
@@ -62,17 +68,10 @@ noncomputable def encS (X Y Z T : Fp) : Fp := fpAbs (encDen X Y Z T * (Z - encY 
 /-- `RistrettoPoint::compress` (field part: `s` before `as_bytes`). -/
 theorem compress_sh_eq (X Y Z T : Fp) :
     AlgRistretto.compress_sh zmodOps X Y Z T = [encS X Y Z T] := by
-  unfold encS
-  unfold encY
-  unfold encDen
-  unfold encY0
-  unfold encX
-  unfold encZinv
-  unfold encI
-  unfold fpAbs
-  unfold invSqrtAmD
-  generalize ha : Z + Y = a
-  generalize hb : Z - Y = b
+  unfold encS encY encDen encY0 encX encRot encZinv encI fpAbs invSqrtAmD
+  obtain ⟨a, ha⟩ : ∃ a, Z + Y = a := ⟨_, rfl⟩
+  obtain ⟨b, hb⟩ : ∃ b, Z - Y = b := ⟨_, rfl⟩
+  simp only [ha, hb]
   alg_lets AlgRistretto.compress_sh [ha, hb]
   simp only [sqrtRatioFp, sqrtCand]
   ring_nf
@@ -93,7 +92,7 @@ noncomputable def mapU (t : Fp) : Fp := (mapR t + 1) * zmodOps.const 6
 noncomputable def mapV (t : Fp) : Fp := (-1 - d * mapR t) * (mapR t + d)
 noncomputable def mapSq (t : Fp) : Fp × Fp := sqrtRatioFp (mapU t) (mapV t)
 noncomputable def mapS (t : Fp) : Fp :=
-  if (mapSq t).1 ≠ 0 then (mapSq t).2 else -fpAbs ((mapSq t).2 * t)
+  if (mapSq t).1 ≠ 0 then (mapSq t).2 else fpNegAbs ((mapSq t).2 * t)
 noncomputable def mapC (t : Fp) : Fp := if (mapSq t).1 ≠ 0 then -1 else mapR t
 noncomputable def mapN (t : Fp) : Fp := mapC t * (mapR t - 1) * zmodOps.const 7 - mapV t
 noncomputable def mapW0 (t : Fp) : Fp := (mapS t + mapS t) * mapV t
@@ -105,12 +104,40 @@ noncomputable def mapW3 (t : Fp) : Fp := 1 + mapS t ^ 2
 theorem elligator_sh_eq (t : Fp) :
     AlgRistretto.elligator_ristretto_flavor_sh zmodOps t =
       [mapW0 t * mapW3 t, mapW2 t * mapW1 t, mapW1 t * mapW3 t, mapW0 t * mapW2 t] := by
-  unfold mapW0 mapW1 mapW2 mapW3 mapN mapC mapS mapSq mapV mapU mapR fpAbs sqrtADm1
+  unfold mapW0 mapW1 mapW2 mapW3 mapN mapC mapS mapSq mapV mapU mapR fpNegAbs sqrtADm1
   generalize ha : sqrtM1 * t ^ 2 + 1 = a
   generalize hb : -1 - d * (sqrtM1 * t ^ 2) = b
   generalize hc : sqrtM1 * t ^ 2 + d = c
   alg_lets AlgRistretto.elligator_ristretto_flavor_sh [ha, hb, hc]
-  simp only [sqrtRatioFp, sqrtCand, c2f_ne_zero_iff, c2f_eq_zero_iff, ite_not]
+  simp only [sqrtRatioFp, sqrtCand, c2f_eq_zero_iff, ite_not]
+  ring_nf
+
+/-! ## `double_and_compress_batch` -/
+
+/-- `BatchCompressState::from(P)`: `(e, f, g, h, eg, fh)` with `e = 2XY`, `f = Z² + dT²`, `g = Y² + X²`,
+`h = Z² − dT²`. -/
+theorem batch_state_from_sh_eq (X Y Z T : Fp) :
+    AlgRistretto.batch_state_from_sh zmodOps X Y Z T =
+      [X * (Y + Y), Z ^ 2 + T ^ 2 * d, Y ^ 2 + X ^ 2, Z ^ 2 - T ^ 2 * d,
+       X * (Y + Y) * (Y ^ 2 + X ^ 2), (Z ^ 2 + T ^ 2 * d) * (Z ^ 2 - T ^ 2 * d)] := by
+  alg_lets AlgRistretto.batch_state_from_sh
+  ring_nf
+
+abbrev batRot (eg inv : Fp) : Prop := fpIsNeg (eg * (eg * inv))
+noncomputable def batE (e g eg inv : Fp) : Fp := if batRot eg inv then g else e
+noncomputable def batG0 (e g eg inv : Fp) : Fp := if batRot eg inv then -e else g
+noncomputable def batH (f h eg inv : Fp) : Fp := if batRot eg inv then f * sqrtM1 else h
+noncomputable def batMagic (eg inv : Fp) : Fp := if batRot eg inv then sqrtM1 else invSqrtAmD
+noncomputable def batG (e f g h eg inv : Fp) : Fp :=
+  if fpIsNeg (batH f h eg inv * batE e g eg inv * (eg * inv)) then -batG0 e g eg inv else batG0 e g eg inv
+noncomputable def batS (e f g h eg fh inv : Fp) : Fp :=
+  fpAbs ((batH f h eg inv - batG e f g h eg inv) * (batMagic eg inv * (batG e f g h eg inv * (fh * inv))))
+
+/-- the per-point closure of `double_and_compress_batch` (field part: `s` before `as_bytes`). -/
+theorem batch_compress_closure_sh_eq (e f g h eg fh inv : Fp) :
+    AlgRistretto.batch_compress_closure_sh zmodOps e f g h eg fh inv = [batS e f g h eg fh inv] := by
+  unfold batS batG batMagic batH batG0 batE batRot fpAbs invSqrtAmD
+  alg_lets AlgRistretto.batch_compress_closure_sh
   ring_nf
 
 end Dalek.Proofs.Ris
